@@ -246,13 +246,40 @@ def exit_bids(rng, prog):
     return True
 
 
+def guarded_aux_reentry(rng, prog):
+    """an original plain auxiliary whose first frame carries an entry guard on an input, under a frame that is
+    forcibly re-entered (`go me` / go to an ancestor that keeps it): the guard is checked again at every re-entry,
+    also while the auxiliary is still owned by that very frame"""
+    plains = [a for a in auxes_of_kind(prog)
+              if not any(b.get("k") == "auxif" and b["aux"] == a for fr in prog["frames"].values() for b in fr["precur"])]
+    mains = list(prog["order"])
+    if not plains or not mains:
+        return False
+    a = rng.choice(plains)
+    hosts = [k for k, fr in prog["frames"].items() if a in fr["auxes"] and fr["framer"] in mains]
+    if not hosts:
+        f = rng.choice(mains)
+        h = rng.choice(_keys_of(prog, f))
+        prog["frames"][h]["auxes"].append(a)
+    else:
+        h = rng.choice(hosts)
+    s = rng.choice(_int_inputs(prog))
+    first = prog["framers"][a]["first"]
+    prog["frames"][first]["benter"] = [need("cmp", False, share=s, op="==", goal=prog["shares"].get(s, 0))]
+    target = h
+    if prog["frames"][h]["over"] and rng.random() < 0.4:
+        target = prog["frames"][h]["over"]      # re-enter from the ancestor down: h is exited and entered again
+    prog["frames"][h]["precur"].insert(0, {"k": "go", "far": target, "needs": [need("recurred", False, op=">=", goal=rng.randint(1, 3))], "transit": []})
+    return True
+
+
 SHAPES = {
     "C03": (exit_bids, deepen, branchy_condaux),
     "C04": (exit_bids, ready_then_start, ready_then_start),
     "C05": (deepen, branchy_condaux, exit_bids),
     "C06": (deepen, branchy_condaux, shared_original, later_done),
     "C07": (deepen, shared_original, branchy_condaux, later_done, exit_bids),
-    "C08": (shared_original, deepen, exit_bids, ready_then_start),
+    "C08": (shared_original, deepen, exit_bids, ready_then_start, guarded_aux_reentry, guarded_aux_reentry),
     "C09": (shared_original, later_done, deepen, exit_bids, shared_original),
     "C10": (branchy_condaux, later_done, branchy_condaux),
     "C11": (deepen, later_done),
